@@ -436,6 +436,9 @@ func incSlots(rng *h.Rng, n int, around uint64) []uint64 {
 	}
 	for i := range out {
 		cur += uint64(rng.Intn(12))
+		if cur > 4294967295 {
+			cur = 4294967295
+		}
 		out[i] = cur
 	}
 	return out
@@ -655,6 +658,15 @@ func gen(rng *h.Rng, tier string, emit func(string)) {
 			var t uint64
 			if len(s.l) > 0 && r.Chance(5, 6) {
 				e := s.l[r.Intn(len(s.l))]
+				if len(s.p) > 0 && r.Chance(3, 4) { // prefer a stored preimage, and its record when there is one
+					hs0 := s.p[r.Intn(len(s.p))][0]
+					e = lrec{hash: hs0}
+					for _, c := range s.l {
+						if string(c.hash) == string(hs0) {
+							e = c
+						}
+					}
+				}
 				hs = e.hash
 				if len(e.slots) > 0 && r.Chance(4, 5) {
 					t = (e.slots[r.Intn(len(e.slots))] + uint64(r.Intn(3)) - 1) & 0xFFFFFFFF
@@ -674,9 +686,12 @@ func gen(rng *h.Rng, tier string, emit func(string)) {
 			}
 			self := ss[r.Intn(len(ss))].id
 			var w7 uint64
-			switch r.Intn(4) {
+			switch r.Intn(6) {
 			case 0:
 				w7 = ^uint64(0)
+				if r.Chance(3, 4) {
+					self = s.id
+				}
 			case 1:
 				w7 = uint64(r.Intn(3)) + 300 // unknown service
 			default:
